@@ -1066,6 +1066,8 @@ class LegCharge:
 
     def is_bunched(self):
         """Checks whether :meth:`bunch` would change something."""
+        if self.block_number == 0:
+            return True  # no blocks: nothing to bunch
         return len(_find_row_differences(self.charges)) == self.block_number + 1
 
     def test_contractible(self, other):
@@ -1292,7 +1294,7 @@ class LegCharge:
         sort : sorts by charges, thus enforcing complete blocking in combination with bunch.
 
         """
-        if self.bunched:  # nothing to do
+        if self.bunched or self.block_number == 0:  # nothing to do
             return np.arange(self.block_number + 1, dtype=np.intp), self
         cp = self.copy()
         idx = _find_row_differences(self.charges)
